@@ -96,6 +96,8 @@ class EnvRunner(core.Hooks):
         self.unpaused_labels = set()
         self.next_label = None
         self.acts = {}
+        self.created = []
+        self.dispatched = set()
 
     # ---- helpers -------------------------------------------------------
     def bump(self, d, k, n=1):
@@ -135,6 +137,7 @@ class EnvRunner(core.Hooks):
         if self.next_label is not None:
             e._simv_label = self.next_label
             self.next_label = None
+            self.created.append(e)      # model-free ledger of the harness's own events (see check_live_events)
         if not isinstance(e.action, Act):
             # the only library-created events in envsim are TERMINATE events
             self.term_n += 1
@@ -192,6 +195,20 @@ class EnvRunner(core.Hooks):
             if bool(e.cancelled) != (lb in m.cancelled):
                 self.fail('C07.b', f'after {after_op}: paused event {lb} cancelled={e.cancelled}, '
                           f'model says {lb in m.cancelled}', 'cancel')
+
+    def check_live_events(self, t0, d):
+        """Model-free: every event the harness scheduled that is live (not cancelled, not withheld by a pause), was due
+        by the end of the run and was not dispatched must at least still be queued (then the 'left' clause speaks);
+        one that is nowhere can never run.  Reads only the real Event objects, so it stays on after the lockstep model
+        was dropped."""
+        env = self.env
+        held = {id(x) for x in env._events} | {id(x) for x in env._paused_events}
+        for x in self.created:
+            if x.cancelled or id(x) in self.dispatched or id(x) in held:
+                continue
+            if x.time < t0 + d or (x.time == t0 + d and x.event_type > TERMINATE_PR):
+                self.fail('C01.e', f'run({d}) from {t0} returned but live event {self.label_of(x)} due at {x.time} was '
+                          f'never executed: it is neither queued nor paused', 'vanished')
 
     def ever_unpaused(self, lb):
         return lb in self.unpaused_labels
@@ -359,6 +376,7 @@ class EnvRunner(core.Hooks):
             self.fail('C01.b', f'clock went backwards: {self.prev_now} -> {env.now}', 'backwards', labels=[lb])
         if any(e is x for x in env._events):
             self.fail('C01.d', f'executed event {lb} is still queued', 'requeued')
+        self.dispatched.add(id(e))
         if not self.model_ok:
             # model-free remainder: the action of a live harness event runs exactly once in its dispatch
             new = self.log[self.log_len:]
@@ -423,6 +441,7 @@ class EnvRunner(core.Hooks):
                                   'left')
                 if env.is_simulation_in_progress():
                     self.fail('C01.e', 'is_simulation_in_progress() is True after run returned', 'inprog')
+                self.check_live_events(t0, d)
                 self.bump(self.stats['ops'], 'run')
             elif kind == 'step':
                 if env._events:
